@@ -73,6 +73,7 @@ var decisionTargets = []decisionTarget{
 		{"aofLock.ExpriedTime", "rec_expried", "uint16"},
 		{"aofLock.CommandTime", "command_time", "uint64"},
 		{"lockDb.currentTime", "now", "int64"},
+		{"aofLock.StartTime", "rec_start", "uint16"},
 	}},
 	{file: "server/arbiter.go", recv: "ArbiterManager", fn: "CompareAofId", name: "CompareAofId", inputs: nil},
 	{file: "server/replication.go", recv: "ReplicationManager", fn: "UpdateDBAckCount", name: "UpdateDBAckCount", resultOf: "db.ackCount", inputs: []decisionInput{
